@@ -92,7 +92,8 @@ def c12_cube(rec, case):
     wav = np.sort(wav)[::-1] if c['desc'] else np.sort(wav)
     unit = UNITS[c['unit']]
     cube = SEDCube()
-    cube.names = np.array(['m%02d' % i for i in range(n_m)])
+    nm_ = (lambda i: 'm%02d' % i) if not c.get('long_names') else (lambda i: 'envelope_disk_cavity_ambient_grid_%07d' % i)      # 41 characters, same first 34
+    cube.names = np.array([nm_(i) for i in range(n_m)])
     cube.distance = 1. * u.kpc
     cube.wav = wav * u.micron
     cube.apertures = None if not c['with_ap'] else np.logspace(1, 4, n_ap) * u.au
@@ -124,7 +125,7 @@ def c12_cube(rec, case):
                 ok &= rec.expect(list(r.names) == list(cube.names), 'cube_names', 'cube names changed', case)
                 # extracting one model gives the SED that was put in
                 m = int(rng.integers(0, n_m))
-                sed = r.get_sed('m%02d' % m)
+                sed = r.get_sed(nm_(m))
                 ok &= rec.expect(close(np.asarray(sed.flux.to(unit).value), val[m][:, idx], 2e-6) and close(sed.wav.to(u.micron).value, w, 1e-6)
                                  and close(sed.nu.to(u.Hz).value, sed.wav.to(u.Hz, equivalencies=u.spectral()).value, 1e-5), 'get_sed',
                                  'get_sed does not return the stored SED of the named model', case)
@@ -178,7 +179,7 @@ def run_c12(tier, seed):
     for t in range(n // 2):
         case = dict(seed=seed, tag='c12-cube', pseed=int(rng.integers(1, 10 ** 6)), n_models=int(rng.integers(1, 7)), n_ap=int(rng.integers(1, 6)),
                     n_wav=int(rng.integers(2, 41)), desc=bool(t % 2), unit=units[(t // 2) % 4], with_ap=bool((t // 8) % 2 == 0), with_unc=bool((t // 4) % 2 == 0),
-                    memmap=bool((t // 16) % 2))
+                    memmap=bool((t // 16) % 2), long_names=bool(t % 5 == 3))
         c12_cube(rec, case)
         rec.case(key=('cube', case['desc'], case['unit'], case['with_ap'], case['with_unc'], case['memmap']), nontrivial=True, sample=case if t < 1 else None)
     for t in range(max(4, n // 8)):
@@ -375,7 +376,7 @@ def c14_one(rec, case):
         # amplifies the 12-digit text file and one-ulp unit round trips beyond any fixed tolerance; that is
         # conditioning, not the property)
         chi = 10. ** (2. + np.cumsum(rng.uniform(-0.15, 0.15, n)))
-    wu = {'micron': u.micron, 'AA': u.AA, 'cm': u.cm, 'nm': u.nm}[c['wav_unit']]
+    wu = {'micron': u.micron, 'AA': u.AA, 'cm': u.cm, 'nm': u.nm, 'm': u.m}[c['wav_unit']]
     cu = {'cgs': u.cm ** 2 / u.g, 'si': u.m ** 2 / u.kg}[c['chi_unit']]
     e = Extinction()
     e.wav = (wav_um * u.micron).to(wu)
@@ -388,7 +389,11 @@ def c14_one(rec, case):
         return np.where(inside, -0.4 * np.interp(q_um, wav_um, chi) / chi_v, 0.)
     q = np.concatenate([rng.choice(wav_um[1:-1], size=min(3, max(n - 2, 1))) if n > 2 else [0.55], 10. ** rng.uniform(np.log10(wav_um[0] * 1.001), np.log10(wav_um[-1] * 0.999), 4),
                         [wav_um[0] * 0.5, wav_um[-1] * 2., 0.55]])
-    qu = {'micron': u.micron, 'AA': u.AA, 'cm': u.cm, 'nm': u.nm}[c['q_unit']]
+    qu = {'micron': u.micron, 'AA': u.AA, 'cm': u.cm, 'nm': u.nm, 'm': u.m}[c['q_unit']]
+    if c.get('near_nodes') and n >= 3:
+        # as many queries as the table has nodes, each a little off its node (between nodes: never outside)
+        off = min(0.002, 0.2 * float(np.min(np.diff(wav_um))))       # 2 nm, or a fifth of the smallest step
+        q = np.concatenate([wav_um[:-1] + off, [wav_um[-1] - off]])
     ok = True
     try:
         got = np.asarray(e.get_av((q * u.micron).to(qu)))
@@ -470,7 +475,9 @@ def run_c14(tier, seed):
     colsel = [[0, 1], [1, 0], [0, 2], [2, 1]]
     for t in range(n):
         case = dict(seed=seed, tag='c14', pseed=int(rng.integers(1, 10 ** 6)), n=int(rng.integers(2, 201 if t % 4 else 6)), wav_unit=wus[t % 4], chi_unit=cus[(t // 4) % 2],
-                    q_unit=wus[(t // 2) % 4], cols=colsel[t % 4], v_on_node=bool(t % 7 == 0))
+                    q_unit=wus[(t // 2) % 4], cols=colsel[t % 4], v_on_node=bool(t % 7 == 0), near_nodes=bool(t % 5 == 2))
+        if t % 10 == 7:
+            case.update(wav_unit='m', q_unit='m', near_nodes=True, n=int(rng.integers(3, 12)))      # (a table in metres: numbers of order 1e-6)
         c14_one(rec, case)
         rec.case(key=(case['wav_unit'], case['chi_unit'], case['q_unit'], tuple(case['cols']), case['n'] > 5), nontrivial=True, sample=case if t < 2 else None)
     for t in range(12 if tier == 'quick' else 300):
@@ -534,6 +541,14 @@ def c15_one(rec, case):
         rec.fail('convert_crash', 'convert_flux %s->%s raised %s: %s' % (A, B, type(e).__name__, e), case)
         return False
     exp = _from_ref(_to_ref(val, A, nu, d_cm), B, nu, d_cm)
+    if c.get('float32'):
+        # the same values held in single precision (how FITS 'E' columns arrive): the relation to single-precision accuracy
+        try:
+            ab32 = convert_flux(nu * u.Hz, val.astype(np.float32) * UNITS[A], UNITS[B], distance=d)
+            g32 = np.asarray(ab32.to(UNITS[B]).value, dtype=float)
+            ok &= rec.expect(bool(np.all(np.isfinite(g32))) and close(g32, exp, 1e-5), 'relation_float32', 'convert_flux %s->%s on single-precision fluxes violates F=nu*F_nu / L=F*d^2 (got %s, expected %s)' % (A, B, g32.ravel()[:3], exp.ravel()[:3]), case)
+        except Exception as e:
+            rec.fail('convert_crash', 'convert_flux %s->%s on single-precision fluxes raised %s: %s' % (A, B, type(e).__name__, e), case)
     ok &= rec.expect(close(ab.to(UNITS[B]).value, exp, 1e-9), 'relation', 'convert_flux %s->%s violates F=nu*F_nu / L=F*d^2 (shape %s)' % (A, B, val.shape), case)
     aba = convert_flux(nu * u.Hz, ab, UNITS[A], distance=d)
     ok &= rec.expect(close(aba.to(UNITS[A]).value, val, 1e-9), 'roundtrip', '%s->%s->%s is not the identity' % (A, B, A), case)
@@ -583,7 +598,7 @@ def run_c15(tier, seed):
             n_ap = int(rng.integers(1, 6))
             n_wav = n_ap if t % 3 == 0 else int(rng.integers(2, 9))
             case = dict(seed=seed, tag='c15', pseed=int(rng.integers(1, 10 ** 6)), A=A, B=B, C=names[t % 5], n_ap=n_ap, n_wav=max(n_wav, 2) if n_ap > 1 else n_wav,
-                        nu_desc=bool(t % 2), d_kpc=float(10. ** rng.uniform(-1, 1)), through_file=(A != 'W/m2' and (t % 4 == 0 or tier != 'quick')))
+                        nu_desc=bool(t % 2), d_kpc=float(10. ** rng.uniform(-1, 1)), through_file=(A != 'W/m2' and (t % 4 == 0 or tier != 'quick')), float32=True)
             if case['n_ap'] > 1 and t % 3 == 0:
                 case['n_wav'] = case['n_ap']
             try:
